@@ -322,6 +322,40 @@ func tandemChainText(r *rand.Rand) []byte {
 	return out
 }
 
+// syllableText: texts over two-byte syllables ('a', 'b'+s): g copies of an
+// increasing chain of k syllables (groups are visited in text order and each
+// must look far ahead: the rank sort runs out of its budget and needs a
+// second pass with doubled depth), then r copies of a two-syllable tandem
+// repeat, a terminator syllable and x further distinct syllables. The W^g
+// prefix alone (r = 0) is the smallest known family that exhausts the budget.
+func syllableText(r *rand.Rand) []byte {
+	k, g := 8+r.Intn(10), 2+r.Intn(5)
+	rep, x := 0, 0
+	if r.Intn(2) == 0 {
+		rep, x = 3+r.Intn(5), r.Intn(4)
+	}
+	var seq []int
+	for j := 0; j < g; j++ {
+		for i := 0; i < k; i++ {
+			seq = append(seq, i)
+		}
+	}
+	for j := 0; j < rep; j++ {
+		seq = append(seq, 151, 150)
+	}
+	if rep > 0 {
+		seq = append(seq, 152)
+	}
+	for j := 0; j < x; j++ {
+		seq = append(seq, 100+j)
+	}
+	t := make([]byte, 0, 2*len(seq))
+	for _, s := range seq {
+		t = append(t, 'a', byte('b'+s))
+	}
+	return t
+}
+
 func genSuffix(seed int64, n int, tier string) []Script {
 	r := rand.New(rand.NewSource(seed))
 	maxN := 1500
@@ -347,11 +381,13 @@ func genSuffix(seed int64, n int, tier string) []Script {
 			Cfg: map[string]any{}, Ops: ops, Tags: []string{"go", "sort"}})
 	}
 	// the budget / tandem-repeat family on its own (short texts, many of them)
-	for i := 0; i < n; i += 10 {
+	for i := 0; i < 2*n; i += 10 {
 		var ops []map[string]any
 		for j := 0; j < 10; j++ {
-			if j%2 == 0 {
+			if j%3 == 0 {
 				ops = append(ops, map[string]any{"op": "suffix", "t": B2(tandemBudgetText(r)), "class": "tandembudget"})
+			} else if j%3 == 1 {
+				ops = append(ops, map[string]any{"op": "suffix", "t": B2(syllableText(r)), "class": "syllables"})
 			} else {
 				ops = append(ops, map[string]any{"op": "suffix", "t": B2(tandemChainText(r)), "class": "tandemchain"})
 			}
